@@ -90,6 +90,9 @@ pub struct Collector {
     pub spaces: BTreeMap<String, u64>,
     pub counters: BTreeMap<String, u64>,
     pub notes: Vec<String>,
+    /// number of executions slower than the per-case limit; after 8 the shard stops enumerating
+    /// (reported as a cap) so that a hang-like defect yields a verdict instead of a timeout
+    pub slow: u32,
     progress: Option<*mut u64>,
     start: std::time::Instant,
 }
@@ -131,6 +134,7 @@ impl Collector {
             spaces: BTreeMap::new(),
             counters: BTreeMap::new(),
             notes: Vec::new(),
+            slow: 0,
             progress,
             start: std::time::Instant::now(),
         }
@@ -141,6 +145,13 @@ impl Collector {
     pub fn next_case(&mut self, space: &str) -> bool {
         let i = self.index;
         self.index += 1;
+        if self.slow >= 8 {
+            if self.slow == 8 {
+                self.slow = 9;
+                self.caps.push("shard stopped enumerating after 8 slow executions".into());
+            }
+            return false;
+        }
         if (i as usize) % self.nshards != self.shard {
             return false;
         }
